@@ -183,6 +183,8 @@ func (c cacheNode) aroundDuration(duration time.Duration) time.Duration {
 }
 
 func (c cacheNode) asyncRetryDelCache(keys ...string) {
+	// the task runs later, it must not share the keys with the caller's slice
+	keys = append([]string(nil), keys...)
 	AddCleanTask(func() error {
 		_, err := c.rds.Del(keys...)
 		return err
